@@ -377,7 +377,8 @@ pub fn verif_ensure_leaf_batch_compatible(proofs: &[ProofWithPublicInputs<F, C, 
 /// this only improves failure latency and error quality.
 fn ensure_leaf_batch_compatible(proofs: &[ProofWithPublicInputs<F, C, D>]) -> Result<()> {
     use crate::private_batch::circuit::constants::{
-        ASSET_ID_START, BLOCK_HASH_START, NULLIFIER_START, VOLUME_FEE_BPS_START,
+        ASSET_ID_START, BLOCK_HASH_START, EXIT_1_START, EXIT_2_START, NULLIFIER_START,
+        OUTPUT_AMOUNT_1_START, OUTPUT_AMOUNT_2_START, VOLUME_FEE_BPS_START,
     };
     use std::collections::HashMap;
 
@@ -461,6 +462,36 @@ fn ensure_leaf_batch_compatible(proofs: &[ProofWithPublicInputs<F, C, D>]) -> Re
             "every supplied leaf proof is all-dummy (block_hash == 0): such a batch \
              settles nothing; supply at least one real leaf proof"
         );
+    }
+
+    // The circuit groups the (exit account, amount) pairs of all real slots by
+    // account and range-checks every grouped sum to 32 bits. Mirror that here:
+    // a batch whose real leaves pay more than u32::MAX to one account passes
+    // per-proof verification and every check above, and would only fail
+    // inside the recursive proving run.
+    let mut grouped_sums: HashMap<[u64; 4], u64> = HashMap::new();
+    for (idx, (proof, meta)) in proofs.iter().zip(&metas).enumerate() {
+        if meta.block_hash == [0u64; 4] {
+            continue; // dummy slots are masked to (zero account, 0) in-circuit
+        }
+        for (exit_start, amount_start) in [
+            (EXIT_1_START, OUTPUT_AMOUNT_1_START),
+            (EXIT_2_START, OUTPUT_AMOUNT_2_START),
+        ] {
+            let exit: [u64; 4] =
+                core::array::from_fn(|i| proof.public_inputs[exit_start + i].to_canonical_u64());
+            let amount = proof.public_inputs[amount_start].to_canonical_u64();
+            let sum = grouped_sums.entry(exit).or_insert(0);
+            *sum = sum.saturating_add(amount);
+            if *sum > u32::MAX as u64 {
+                bail!(
+                    "leaf proof {} brings the total paid to one exit account to {}, above the \
+                     32-bit limit the private-batch circuit enforces on grouped exit sums",
+                    idx,
+                    *sum
+                );
+            }
+        }
     }
     Ok(())
 }
